@@ -4,6 +4,7 @@
 
 use crate::prng::Rng;
 use crate::types::{ScheduleRec, SimKnobs, Strategy};
+#[cfg(not(feature = "native"))]
 use shuttle::scheduler::{Schedule, Scheduler, Task, TaskId};
 use std::cell::{Cell, RefCell};
 use std::sync::{Arc, Mutex};
@@ -74,6 +75,7 @@ pub fn sched_point(site: Site) {
     if n % k != 0 {
         return;
     }
+    #[cfg(not(feature = "native"))]
     if shuttle::current::get_current_task().is_none() {
         return;
     }
@@ -90,7 +92,11 @@ pub fn sched_point(site: Site) {
     });
     // sleep, not yield_now: a plain context-switch opportunity without telling
     // the scheduler the task is spinning
+    #[cfg(not(feature = "native"))]
     shuttle::thread::sleep(std::time::Duration::ZERO);
+    // real pool (native / Miri leg): an OS-level yield; Miri's scheduler may also preempt anywhere
+    #[cfg(feature = "native")]
+    std::thread::yield_now();
 }
 
 // ---------------------------------------------------------------------------
@@ -131,7 +137,8 @@ pub fn install_logger() {
 // thread.  This definition takes precedence over libc's at link time.
 
 /// # Safety
-/// Same contract as libc's getrandom.
+/// Same contract as libc's getrandom.  (Under Miri the interpreter owns entropy: seeded by -Zmiri-seed.)
+#[cfg(not(miri))]
 #[no_mangle]
 pub unsafe extern "C" fn getrandom(buf: *mut u8, len: usize, flags: u32) -> isize {
     match ENTROPY.with(|e| e.get()) {
@@ -169,163 +176,171 @@ pub fn hashmap_order_canary() -> u64 {
     h
 }
 
-// ---------------------------------------------------------------------------
-// the scheduler
+#[cfg(not(feature = "native"))]
+mod sched {
+    use super::*;
+    // ---------------------------------------------------------------------------
+    // the scheduler
 
-#[derive(Default)]
-struct Recorder {
-    rec: ScheduleRec,
-    stats: RunStats,
-}
-
-enum Mode {
-    Draw { rng: Rng, strategy: Strategy, prio: Vec<u64>, change_points: Vec<u64>, low: u64 },
-    Replay { rec: ScheduleRec, tpos: usize, rpos: usize, strict: bool },
-}
-
-pub struct SimScheduler {
-    mode: Mode,
-    shared: Arc<Mutex<Recorder>>,
-    started: bool,
-    steps: u64,
-    // per-task number of times it was scheduled: feeds the interleaving hash
-    progress: Vec<u32>,
-}
-
-impl SimScheduler {
-    fn new(knobs: &SimKnobs, replay: Option<(ScheduleRec, bool)>, shared: Arc<Mutex<Recorder>>) -> Self {
-        let mode = match replay {
-            Some((rec, strict)) => Mode::Replay { rec, tpos: 0, rpos: 0, strict },
-            None => {
-                let mut rng = Rng::new(knobs.sched_seed);
-                let mut change_points = Vec::new();
-                if let Strategy::Pct { depth, horizon } = &knobs.strategy {
-                    for _ in 0..depth.saturating_sub(1) {
-                        change_points.push(rng.below((*horizon).max(1) as u64));
-                    }
-                }
-                Mode::Draw { rng, strategy: knobs.strategy.clone(), prio: Vec::new(), change_points, low: 0 }
-            }
-        };
-        SimScheduler { mode, shared, started: false, steps: 0, progress: Vec::new() }
+    #[derive(Default)]
+    pub struct Recorder {
+        pub rec: ScheduleRec,
+        pub stats: RunStats,
     }
-}
 
-impl Scheduler for SimScheduler {
-    fn new_execution(&mut self) -> Option<Schedule> {
-        if self.started {
-            None
-        } else {
-            self.started = true;
-            Some(Schedule::new(0))
+    enum Mode {
+        Draw { rng: Rng, strategy: Strategy, prio: Vec<u64>, change_points: Vec<u64>, low: u64 },
+        Replay { rec: ScheduleRec, tpos: usize, rpos: usize, strict: bool },
+    }
+
+    pub struct SimScheduler {
+        mode: Mode,
+        shared: Arc<Mutex<Recorder>>,
+        started: bool,
+        steps: u64,
+        // per-task number of times it was scheduled: feeds the interleaving hash
+        progress: Vec<u32>,
+    }
+
+    impl SimScheduler {
+        pub fn new(knobs: &SimKnobs, replay: Option<(ScheduleRec, bool)>, shared: Arc<Mutex<Recorder>>) -> Self {
+            let mode = match replay {
+                Some((rec, strict)) => Mode::Replay { rec, tpos: 0, rpos: 0, strict },
+                None => {
+                    let mut rng = Rng::new(knobs.sched_seed);
+                    let mut change_points = Vec::new();
+                    if let Strategy::Pct { depth, horizon } = &knobs.strategy {
+                        for _ in 0..depth.saturating_sub(1) {
+                            change_points.push(rng.below((*horizon).max(1) as u64));
+                        }
+                    }
+                    Mode::Draw { rng, strategy: knobs.strategy.clone(), prio: Vec::new(), change_points, low: 0 }
+                }
+            };
+            SimScheduler { mode, shared, started: false, steps: 0, progress: Vec::new() }
         }
     }
 
-    fn next_task(&mut self, runnable: &[&Task], current: Option<TaskId>, is_yielding: bool) -> Option<TaskId> {
-        let ids: Vec<usize> = runnable.iter().map(|t| usize::from(t.id())).collect();
-        let cur = current.map(usize::from);
-        let cur_runnable = cur.map(|c| ids.contains(&c)).unwrap_or(false);
-        let mut diverged = false;
-        let chosen = match &mut self.mode {
-            Mode::Replay { rec, tpos, strict, .. } => {
-                let want = rec.tasks.get(*tpos).map(|x| *x as usize);
-                *tpos += 1;
-                match want {
-                    Some(w) if ids.contains(&w) => w,
-                    _ => {
-                        diverged = true;
-                        if *strict {
-                            // reported by the caller as a harness error, never as a violation
-                            self.shared.lock().unwrap().stats.replay_divergences += 1;
-                        }
-                        if cur_runnable {
-                            cur.unwrap()
-                        } else {
-                            *ids.iter().min().unwrap()
-                        }
-                    }
-                }
+    impl Scheduler for SimScheduler {
+        fn new_execution(&mut self) -> Option<Schedule> {
+            if self.started {
+                None
+            } else {
+                self.started = true;
+                Some(Schedule::new(0))
             }
-            Mode::Draw { rng, strategy, prio, change_points, low } => match strategy {
-                Strategy::Random => ids[rng.usize_below(ids.len())],
-                Strategy::Lowest => *ids.iter().min().unwrap(),
-                Strategy::Sticky { keep } => {
-                    if cur_runnable && !is_yielding && rng.below(256) < *keep as u64 {
-                        cur.unwrap()
-                    } else {
-                        ids[rng.usize_below(ids.len())]
-                    }
-                }
-                Strategy::Pct { .. } => {
-                    let maxid = *ids.iter().max().unwrap();
-                    while prio.len() <= maxid {
-                        // high bit set: initial priorities are above every demoted one
-                        prio.push((rng.u64() >> 1) | (1 << 62));
-                    }
-                    if ids.len() > 1 {
-                        if change_points.contains(&self.steps) || is_yielding {
-                            if let Some(c) = cur {
-                                // demote below everything seen so far
-                                *low += 1;
-                                if c < prio.len() {
-                                    prio[c] = (1 << 61) - *low;
-                                }
+        }
+
+        fn next_task(&mut self, runnable: &[&Task], current: Option<TaskId>, is_yielding: bool) -> Option<TaskId> {
+            let ids: Vec<usize> = runnable.iter().map(|t| usize::from(t.id())).collect();
+            let cur = current.map(usize::from);
+            let cur_runnable = cur.map(|c| ids.contains(&c)).unwrap_or(false);
+            let mut diverged = false;
+            let chosen = match &mut self.mode {
+                Mode::Replay { rec, tpos, strict, .. } => {
+                    let want = rec.tasks.get(*tpos).map(|x| *x as usize);
+                    *tpos += 1;
+                    match want {
+                        Some(w) if ids.contains(&w) => w,
+                        _ => {
+                            diverged = true;
+                            if *strict {
+                                // reported by the caller as a harness error, never as a violation
+                                self.shared.lock().unwrap().stats.replay_divergences += 1;
+                            }
+                            if cur_runnable {
+                                cur.unwrap()
+                            } else {
+                                *ids.iter().min().unwrap()
                             }
                         }
-                        self.steps += 1;
                     }
-                    *ids.iter().max_by_key(|i| prio[**i]).unwrap()
                 }
-            },
-        };
-        if self.progress.len() <= chosen {
-            self.progress.resize(chosen + 1, 0);
+                Mode::Draw { rng, strategy, prio, change_points, low } => match strategy {
+                    Strategy::Random => ids[rng.usize_below(ids.len())],
+                    Strategy::Lowest => *ids.iter().min().unwrap(),
+                    Strategy::Sticky { keep } => {
+                        if cur_runnable && !is_yielding && rng.below(256) < *keep as u64 {
+                            cur.unwrap()
+                        } else {
+                            ids[rng.usize_below(ids.len())]
+                        }
+                    }
+                    Strategy::Pct { .. } => {
+                        let maxid = *ids.iter().max().unwrap();
+                        while prio.len() <= maxid {
+                            // high bit set: initial priorities are above every demoted one
+                            prio.push((rng.u64() >> 1) | (1 << 62));
+                        }
+                        if ids.len() > 1 {
+                            if change_points.contains(&self.steps) || is_yielding {
+                                if let Some(c) = cur {
+                                    // demote below everything seen so far
+                                    *low += 1;
+                                    if c < prio.len() {
+                                        prio[c] = (1 << 61) - *low;
+                                    }
+                                }
+                            }
+                            self.steps += 1;
+                        }
+                        *ids.iter().max_by_key(|i| prio[**i]).unwrap()
+                    }
+                },
+            };
+            if self.progress.len() <= chosen {
+                self.progress.resize(chosen + 1, 0);
+            }
+            self.progress[chosen] += 1;
+            {
+                let mut sh = self.shared.lock().unwrap();
+                sh.rec.tasks.push(chosen as u32);
+                let st = &mut sh.stats;
+                st.decisions += 1;
+                if ids.len() == 1 {
+                    st.forced_decisions += 1;
+                }
+                if ids.len() as u64 > st.max_runnable {
+                    st.max_runnable = ids.len() as u64;
+                }
+                if cur.is_some() && cur != Some(chosen) {
+                    st.context_switches += 1;
+                    // identity of the interleaving: where each switch happened, in
+                    // task-local progress units
+                    let c = cur.unwrap();
+                    let p = self.progress.get(c).copied().unwrap_or(0) as u64;
+                    st.interleaving_hash = (st.interleaving_hash ^ ((c as u64) << 40 | (chosen as u64) << 24 | p))
+                        .wrapping_mul(0x100000001b3)
+                        .rotate_left(7);
+                }
+                if diverged {
+                    st.replay_divergences += 0; // counted above only in strict mode
+                }
+            }
+            Some(TaskId::from(chosen))
         }
-        self.progress[chosen] += 1;
-        {
+
+        fn next_u64(&mut self) -> u64 {
+            let v = match &mut self.mode {
+                Mode::Replay { rec, rpos, .. } => {
+                    let v = rec.randoms.get(*rpos).copied();
+                    *rpos += 1;
+                    // lenient default: "not stolen"
+                    v.unwrap_or(u64::MAX)
+                }
+                Mode::Draw { rng, .. } => rng.u64(),
+            };
             let mut sh = self.shared.lock().unwrap();
-            sh.rec.tasks.push(chosen as u32);
-            let st = &mut sh.stats;
-            st.decisions += 1;
-            if ids.len() == 1 {
-                st.forced_decisions += 1;
-            }
-            if ids.len() as u64 > st.max_runnable {
-                st.max_runnable = ids.len() as u64;
-            }
-            if cur.is_some() && cur != Some(chosen) {
-                st.context_switches += 1;
-                // identity of the interleaving: where each switch happened, in
-                // task-local progress units
-                let c = cur.unwrap();
-                let p = self.progress.get(c).copied().unwrap_or(0) as u64;
-                st.interleaving_hash = (st.interleaving_hash ^ ((c as u64) << 40 | (chosen as u64) << 24 | p))
-                    .wrapping_mul(0x100000001b3)
-                    .rotate_left(7);
-            }
-            if diverged {
-                st.replay_divergences += 0; // counted above only in strict mode
-            }
+            sh.rec.randoms.push(v);
+            sh.stats.randoms += 1;
+            v
         }
-        Some(TaskId::from(chosen))
     }
 
-    fn next_u64(&mut self) -> u64 {
-        let v = match &mut self.mode {
-            Mode::Replay { rec, rpos, .. } => {
-                let v = rec.randoms.get(*rpos).copied();
-                *rpos += 1;
-                // lenient default: "not stolen"
-                v.unwrap_or(u64::MAX)
-            }
-            Mode::Draw { rng, .. } => rng.u64(),
-        };
-        let mut sh = self.shared.lock().unwrap();
-        sh.rec.randoms.push(v);
-        sh.stats.randoms += 1;
-        v
-    }
+
 }
+#[cfg(not(feature = "native"))]
+use sched::*;
 
 // ---------------------------------------------------------------------------
 // executor
@@ -336,7 +351,24 @@ pub struct SimOutcome<T> {
     pub abort_msg: Option<String>,
     pub schedule: ScheduleRec,
     pub stats: RunStats,
-    pub pool: rayon_core::sim::Stats,
+    pub pool: PoolStats,
+}
+
+#[cfg(not(feature = "native"))]
+pub type PoolStats = rayon_core::sim::Stats;
+
+/// Native / Miri leg: the real rayon-core runs, nothing to count.
+#[cfg(feature = "native")]
+#[derive(Clone, Debug, Default)]
+pub struct PoolStats {
+    pub joins: u64,
+    pub steals: u64,
+    pub scope_spawns: u64,
+    pub max_live_workers: u64,
+    pub split_tree_hash: u64,
+    pub max_depth: u64,
+    pub panicked_joins: u64,
+    pub unusual_entry: u64,
 }
 
 pub const RUN_STACK: usize = 64 << 20;
@@ -365,73 +397,130 @@ pub fn run_plain<T: Send + 'static>(entropy: Option<u64>, stack: usize, f: impl 
     h.join().map_err(panic_text)
 }
 
-/// Run `f` as the root task of one simulated schedule.
-pub fn run_sim<T: Send + 'static>(
-    knobs: &SimKnobs,
-    replay: Option<(ScheduleRec, bool)>,
-    entropy: Option<u64>,
-    f: impl Fn() -> T + Send + Sync + 'static,
-) -> SimOutcome<T> {
-    let knobs = knobs.clone();
-    let shared = Arc::new(Mutex::new(Recorder::default()));
-    let shared2 = shared.clone();
-    let slot: Arc<Mutex<Option<T>>> = Arc::new(Mutex::new(None));
-    let slot2 = slot.clone();
-    let h = std::thread::Builder::new()
-        .stack_size(RUN_STACK)
-        .spawn(move || {
-            QUIET.with(|q| q.set(true));
-            set_thread_entropy(entropy);
-            let sched = SimScheduler::new(&knobs, replay, shared2);
-            let mut cfg = shuttle::Config::new();
-            cfg.stack_size = 1 << 20;
-            cfg.failure_persistence = shuttle::FailurePersistence::None;
-            cfg.max_steps = shuttle::MaxSteps::None;
-            cfg.silence_warnings = true;
-            rayon_core::sim::begin(rayon_core::sim::Knobs { threads: knobs.threads as usize, steal_p: knobs.steal_p });
-            ACTIVE.with(|a| a.set(true));
-            THIN.with(|t| t.set(knobs.log_thin));
-            COUNTER.with(|c| c.set(0));
-            STATS.with(|s| *s.borrow_mut() = RunStats::default());
-            log::set_max_level(log::LevelFilter::Trace);
-            let runner = shuttle::Runner::new(sched, cfg);
-            let r = std::panic::catch_unwind(std::panic::AssertUnwindSafe(|| {
-                runner.run(move || {
-                    let v = f();
-                    *slot2.lock().unwrap() = Some(v);
-                });
-            }));
-            log::set_max_level(log::LevelFilter::Off);
-            ACTIVE.with(|a| a.set(false));
-            let pool = rayon_core::sim::end();
-            let stats = STATS.with(|s| s.borrow().clone());
-            (r.err().map(panic_text), stats, pool)
-        })
-        .expect("spawn sim thread");
-    let (abort_msg, tl_stats, pool) = match h.join() {
-        Ok(x) => x,
-        Err(p) => (Some(format!("sim thread died: {}", panic_text(p))), RunStats::default(), Default::default()),
-    };
-    let rec = std::mem::take(&mut *shared.lock().unwrap());
-    let mut stats = rec.stats;
-    stats.sched_points_parse = tl_stats.sched_points_parse;
-    stats.sched_points_emit = tl_stats.sched_points_emit;
-    stats.sched_points_other = tl_stats.sched_points_other;
-    stats.sched_points_instr_loc = tl_stats.sched_points_instr_loc;
-    stats.log_records = tl_stats.log_records;
-    let value = slot.lock().unwrap().take();
-    SimOutcome { value, abort_msg, schedule: rec.rec, stats, pool }
-}
+#[cfg(not(feature = "native"))]
+mod simexec {
+    use super::*;
+    /// Run `f` as the root task of one simulated schedule.
+    pub fn run_sim<T: Send + 'static>(
+        knobs: &SimKnobs,
+        replay: Option<(ScheduleRec, bool)>,
+        entropy: Option<u64>,
+        f: impl Fn() -> T + Send + Sync + 'static,
+    ) -> SimOutcome<T> {
+        let knobs = knobs.clone();
+        let shared = Arc::new(Mutex::new(Recorder::default()));
+        let shared2 = shared.clone();
+        let slot: Arc<Mutex<Option<T>>> = Arc::new(Mutex::new(None));
+        let slot2 = slot.clone();
+        let h = std::thread::Builder::new()
+            .stack_size(RUN_STACK)
+            .spawn(move || {
+                QUIET.with(|q| q.set(true));
+                set_thread_entropy(entropy);
+                let sched = SimScheduler::new(&knobs, replay, shared2);
+                let mut cfg = shuttle::Config::new();
+                cfg.stack_size = 1 << 20;
+                cfg.failure_persistence = shuttle::FailurePersistence::None;
+                cfg.max_steps = shuttle::MaxSteps::None;
+                cfg.silence_warnings = true;
+                rayon_core::sim::begin(rayon_core::sim::Knobs { threads: knobs.threads as usize, steal_p: knobs.steal_p });
+                ACTIVE.with(|a| a.set(true));
+                THIN.with(|t| t.set(knobs.log_thin));
+                COUNTER.with(|c| c.set(0));
+                STATS.with(|s| *s.borrow_mut() = RunStats::default());
+                log::set_max_level(log::LevelFilter::Trace);
+                let runner = shuttle::Runner::new(sched, cfg);
+                let r = std::panic::catch_unwind(std::panic::AssertUnwindSafe(|| {
+                    runner.run(move || {
+                        let v = f();
+                        *slot2.lock().unwrap() = Some(v);
+                    });
+                }));
+                log::set_max_level(log::LevelFilter::Off);
+                ACTIVE.with(|a| a.set(false));
+                let pool = rayon_core::sim::end();
+                let stats = STATS.with(|s| s.borrow().clone());
+                (r.err().map(panic_text), stats, pool)
+            })
+            .expect("spawn sim thread");
+        let (abort_msg, tl_stats, pool) = match h.join() {
+            Ok(x) => x,
+            Err(p) => (Some(format!("sim thread died: {}", panic_text(p))), RunStats::default(), Default::default()),
+        };
+        let rec = std::mem::take(&mut *shared.lock().unwrap());
+        let mut stats = rec.stats;
+        stats.sched_points_parse = tl_stats.sched_points_parse;
+        stats.sched_points_emit = tl_stats.sched_points_emit;
+        stats.sched_points_other = tl_stats.sched_points_other;
+        stats.sched_points_instr_loc = tl_stats.sched_points_instr_loc;
+        stats.log_records = tl_stats.log_records;
+        let value = slot.lock().unwrap().take();
+        SimOutcome { value, abort_msg, schedule: rec.rec, stats, pool }
+    }
 
-/// shuttle installs its own (chatty) panic hook once, at the first execution;
-/// trigger that now and then put the silent hook back.
-pub fn warm_up() {
-    let knobs = SimKnobs { threads: 2, steal_p: 65536, log_thin: 1, strategy: Strategy::Random, sched_seed: 0 };
-    let o = run_sim(&knobs, None, Some(0), || {
-        let (a, b) = rayon_core::join(|| 1, || 2);
-        a + b
-    });
-    assert_eq!(o.value, Some(3), "simulator warm-up failed: {:?}", o.abort_msg);
-    assert_eq!(o.pool.steals, 1, "simulator warm-up: the stolen side did not run as its own task");
-    install_panic_hook();
+    /// shuttle installs its own (chatty) panic hook once, at the first execution;
+    /// trigger that now and then put the silent hook back.
+    pub fn warm_up() {
+        let knobs = SimKnobs { threads: 2, steal_p: 65536, log_thin: 1, strategy: Strategy::Random, sched_seed: 0 };
+        let o = run_sim(&knobs, None, Some(0), || {
+            let (a, b) = rayon_core::join(|| 1, || 2);
+            a + b
+        });
+        assert_eq!(o.value, Some(3), "simulator warm-up failed: {:?}", o.abort_msg);
+        assert_eq!(o.pool.steals, 1, "simulator warm-up: the stolen side did not run as its own task");
+        install_panic_hook();
+    }
+
 }
+#[cfg(not(feature = "native"))]
+pub use simexec::*;
+
+#[cfg(feature = "native")]
+mod nativeexec {
+    use super::*;
+
+    /// The REAL rayon pool of `knobs.threads` workers; the schedule is whatever the OS (or Miri) makes it.
+    pub fn run_sim<T: Send + 'static>(
+        knobs: &SimKnobs,
+        _replay: Option<(ScheduleRec, bool)>,
+        entropy: Option<u64>,
+        f: impl Fn() -> T + Send + Sync + 'static,
+    ) -> SimOutcome<T> {
+        let threads = knobs.threads.max(1) as usize;
+        let thin = knobs.log_thin;
+        let h = std::thread::Builder::new()
+            .stack_size(RUN_STACK)
+            .spawn(move || {
+                QUIET.with(|q| q.set(true));
+                set_thread_entropy(entropy);
+                let pool = rayon::ThreadPoolBuilder::new()
+                    .num_threads(threads)
+                    .stack_size(8 << 20)
+                    .start_handler(move |_| {
+                        QUIET.with(|q| q.set(true));
+                        ACTIVE.with(|a| a.set(true));
+                        THIN.with(|t| t.set(thin));
+                    })
+                    .build()
+                    .expect("build rayon pool");
+                log::set_max_level(log::LevelFilter::Trace);
+                let r = std::panic::catch_unwind(std::panic::AssertUnwindSafe(|| pool.install(&f)));
+                log::set_max_level(log::LevelFilter::Off);
+                drop(pool);
+                r.map_err(panic_text)
+            })
+            .expect("spawn native thread");
+        let (value, abort_msg) = match h.join() {
+            Ok(Ok(v)) => (Some(v), None),
+            Ok(Err(e)) => (None, Some(e)),
+            Err(p) => (None, Some(format!("native thread died: {}", panic_text(p)))),
+        };
+        SimOutcome { value, abort_msg, schedule: ScheduleRec::default(), stats: RunStats::default(), pool: PoolStats::default() }
+    }
+
+    pub fn warm_up() {
+        install_panic_hook();
+    }
+}
+#[cfg(feature = "native")]
+pub use nativeexec::*;
